@@ -49,6 +49,8 @@
 #include <fcntl.h>
 #include <sys/wait.h>
 #include <sys/resource.h>
+#include <sys/time.h>
+#include <signal.h>
 
 using namespace vh;
 using ref::LD;
@@ -97,6 +99,7 @@ static const char* K_SPHERE    = "C17:sphere-only-structure-accepted-in-Rn";    
 static const char* K_EMPTYLAG  = "C17:ModelOptimSillsVario-empty-lag-overflow";                // D14
 static const char* K_NODD      = "C17:model_fitting_sills-unallocated-dd";                     // D15
 static const char* K_NOEXPAND  = "C17:constant-sill-not-expanded";                             // D16
+static const char* K_MATERN    = "C17:matern-large-third-parameter-gives-nan";                 // D12 = D13
 static std::string ROOTKEY;
 struct KCtx
 {
@@ -1255,7 +1258,7 @@ static void sillsCase(Rng& r, KCtx c, Cfg& g, Vario* vario, double gmax, int for
   {
     std::string what;
     int st = runInChild([&]() { std::unique_ptr<Model> copy(model->clone()); (void)doFit(copy.get()); }, 300., what);
-    c.check("no-crash", crashKey, st == 0, st, 0, what);
+    c.c.check("no-crash", crashKey, st == 0, st, 0, what);
     if (st != 0) return;
   }
   int err = 0;
@@ -1315,6 +1318,18 @@ static void sillsCase(Rng& r, KCtx c, Cfg& g, Vario* vario, double gmax, int for
 // ------------------------------------------------------------------------------------------------
 // the fit itself and the validation of its result (random cases and scripted scenarios go through the same code)
 // ------------------------------------------------------------------------------------------------
+static bool hasType(const Cfg& g, const ECov& t)
+{
+  for (auto& u : g.types) if (u == t) return true;
+  return false;
+}
+static bool maternOverflow(const Model* m)
+{
+  // D12: CovMatern::_newMatern = pow(h/2,nu) K_nu(h) / Gamma(nu) is inf/inf for nu beyond ~150 (getParMax() is 1000)
+  for (int k = 0; k < m->getCovaNumber(); k++)
+    if (m->getCovaType(k) == ECov::MATERN && !(m->getCova(k)->getParam() < 140.)) return true;
+  return false;
+}
 static bool scaleBlowup(const Model* m)
 {
   // D7: scale = range / getScadef() leaves [1e-10, inf) for GAMMA / CAUCHY / STABLE with a small third parameter
@@ -1363,16 +1378,13 @@ static void fitAndCheck(Rng& r, KCtx c, Cfg& g, Vario* vario, DbGrid* dbmap, dou
   if (hasExotic(g)) ROOTKEY = K_SPHERE;
   else if (csMulti) ROOTKEY = K_CSMULTI;
   std::string crashKey;
-  if (g.expectFail.empty() && !hasExotic(g))
-  {
-    if (g.flagIntrinsic) crashKey = K_INTRINSIC;
-    else if (g.lockSameRot && !g.noreduce && g.types.size() >= 2) crashKey = K_SAMEROT;
-  }
+  if (g.flagIntrinsic) crashKey = K_INTRINSIC; // whatever else the request contains: the sills are fitted before anything is refused
+  else if (g.expectFail.empty() && !hasExotic(g) && g.lockSameRot && !g.noreduce && g.types.size() >= 2) crashKey = K_SAMEROT;
   if (!crashKey.empty())
   {
     std::string what;
     int st = runInChild([&]() { std::unique_ptr<Model> mc(Model::createFromEnvironment(g.nvar, g.ndim)); (void)doFit(mc.get()); }, 300., what);
-    c.check("no-crash", crashKey, st == 0, st, 0, what + " types " + typesKey(g));
+    c.c.check("no-crash", crashKey, st == 0, st, 0, what + " types " + typesKey(g)); // the class of the crash wins over any other class
     if (st != 0) return;
   }
 
@@ -1393,6 +1405,8 @@ static void fitAndCheck(Rng& r, KCtx c, Cfg& g, Vario* vario, DbGrid* dbmap, dou
     std::string key;
     if (!g.expectFail.empty()) key = K_REFUSAL; // a request the library refuses, refused by an exception
     else if (full.find("Ellipsoid radius cannot be null") != std::string::npos) key = K_SCALE;
+    else if (hasType(g, ECov::MATERN) && (full.find("_M_default_append") != std::string::npos || full.find("__bessel_ik") != std::string::npos))
+      key = K_MATERN; // a NaN parameter reached CovMatern (computeMarkovCoeffs / cyl_bessel_k): see D12
     else key = "C17:exception-from-valid-request:" + what.substr(0, 48);
     c.check("no-exception", key, false, 1, 0, full.substr(0, 200) + " [" + (g.expectFail.empty() ? "valid request" : g.expectFail) + "] types " + typesKey(g));
     return;
@@ -1424,15 +1438,192 @@ static void fitAndCheck(Rng& r, KCtx c, Cfg& g, Vario* vario, DbGrid* dbmap, dou
     c.truth("structures-subset", "C17:model:no-structure-left:" + std::string(SRCN[g.src]), false, "fit returned 0 with an empty model");
     return;
   }
+  if (ROOTKEY.empty() && maternOverflow(model.get())) ROOTKEY = K_MATERN;
   if (ROOTKEY.empty() && scaleBlowup(model.get())) ROOTKEY = K_SCALE;
   validateModel(c, g, model.get(), ep, gmax);
   useModel(r, c, g, model.get());
 }
 
+
+// ------------------------------------------------------------------------------------------------
+// Scripted scenarios: the first NSCRIPT case indices of every run replay one fixed, seed-independent request per open
+// finding (reports/C17_open_findings.json), through the same fit-and-validate code as the random cases, so that every
+// open key is reached in every run of both tiers and the set of failing keys does not depend on VERIF_SEED.
+// ------------------------------------------------------------------------------------------------
+static const int NSCRIPT = 16;
+static void setDirs(Cfg& g, int ndir, double angref)
+{
+  g.ndir = ndir;
+  g.angref = angref;
+  g.codirs.clear();
+  if (g.ndim == 1) { g.ndir = 1; g.codirs.push_back(VectorDouble({1.})); return; }
+  if (g.ndim == 2)
+  {
+    for (int id = 0; id < ndir; id++)
+    {
+      double a = (angref + 180. * id / ndir) * PI / 180.;
+      g.codirs.push_back(VectorDouble({std::cos(a), std::sin(a)}));
+    }
+    return;
+  }
+  static const double D[4][3] = {{1, 0, 0}, {0, 0, 1}, {0, 1, 0}, {0.7071067811865476, 0.7071067811865476, 0}};
+  for (int id = 0; id < ndir; id++) g.codirs.push_back(VectorDouble({D[id][0], D[id][1], D[id][2]}));
+}
+static Truth stdTruth(int nvar, bool nuggetOnly = false, bool linearOnly = false)
+{
+  Truth t;
+  auto mat = [&](double d, double o) { Mat B(nvar, nvar); for (int i = 0; i < nvar; i++) for (int j = 0; j < nvar; j++) B(i, j) = (i == j) ? d : o; return B; };
+  if (nuggetOnly) { t.nst = 1; t.kind = {0}; t.a = {1.}; t.ratio = {1.}; t.ang = {0.}; t.B = {mat(1., 0.3)}; return t; }
+  if (linearOnly) { t.nst = 1; t.kind = {4}; t.a = {40.}; t.ratio = {1.}; t.ang = {0.}; t.B = {mat(1., 0.3)}; return t; }
+  t.nst = 2; t.kind = {0, 2}; t.a = {1., 30.}; t.ratio = {1., 0.5}; t.ang = {0., 30.};
+  t.B = {mat(0.2, 0.05), mat(1., 0.4)};
+  return t;
+}
+static void scripted(int idx, Rng& rs, Ctx& c)
+{
+  Cfg g;
+  g.src = SRC_HAND; g.ndim = 2; g.nvar = 1; g.patho = P_NONE; g.L = 100; g.npas = 8; g.dpas = g.L / 2. / g.npas;
+  g.maxiter = 1000;
+  setDirs(g, 4, 0.);
+  Truth t = stdTruth(1);
+  int sillApi = -1, sillConst = -1, sillExpand = -1;
+  bool shrink = false;
+  const char* name = "";
+  switch (idx)
+  {
+    case 0: name = "D1-dimension-limited-structure"; g.types = {ECov::SPHERICAL, ECov::TRIANGLE}; g.expectFail = "dimlimited-structure"; break;
+    case 1: name = "D2-flag-intrinsic"; g.types = {ECov::NUGGET, ECov::SPHERICAL}; g.flagIntrinsic = true; break;
+    case 2:
+      name = "D3-bounds-after-nonconverged-reduction";
+      setDirs(g, 1, 0.); t = stdTruth(1); t.ratio = {1., 1.}; t.ang = {0., 0.};
+      g.types = {ECov::GAUSSIAN, ECov::CUBIC}; g.maxiter = 3; g.tolsigma = 60.;
+      g.cons.push_back({EConsElem::RANGE, 1, 0, 0, EConsType::UPPER, 12.});
+      g.cons.push_back({EConsElem::RANGE, 1, 0, 0, EConsType::LOWER, 8.});
+      g.consClass = "items";
+      break;
+    case 3:
+      name = "D4-sill-bound-goulard-off";
+      g.types = {ECov::NUGGET, ECov::SPHERICAL}; g.noreduce = true; g.goulard = false;
+      g.cons.push_back({EConsElem::SILL, 1, 0, 0, EConsType::EQUAL, 0.5});
+      g.consClass = "items";
+      break;
+    case 4:
+      name = "D5-constant-sill-multivariate-fit";
+      g.nvar = 2; t = stdTruth(2); g.types = {ECov::NUGGET, ECov::SPHERICAL, ECov::EXPONENTIAL}; g.constSill = 1.; g.consClass = "constsill";
+      g.maxiter = CONSTSILL_MAXITER;
+      break;
+    case 5:
+      name = "D5-constant-sill-multivariate-ModelOptimSillsVario";
+      g.nvar = 2; t = stdTruth(2); g.types = {ECov::NUGGET, ECov::SPHERICAL, ECov::EXPONENTIAL}; sillApi = 1; sillConst = 1; sillExpand = 1;
+      break;
+    case 6:
+      name = "D6-samerot-all-rotating-structures-discarded";
+      t = stdTruth(1, true); g.patho = P_NUGGET; g.types = {ECov::NUGGET, ECov::SPHERICAL, ECov::EXPONENTIAL}; g.lockSameRot = true;
+      break;
+    case 7:
+      name = "D7-scale-factor-blowup";
+      setDirs(g, 1, 0.); t.ratio = {1., 1.}; t.ang = {0., 0.}; // omnidirectional: the isotropic setter is the one that throws
+      g.types = {ECov::GAMMA}; g.noreduce = true;
+      // 20^(1/param) between 1e10 and 1e20 times the range: the scale passes CovAniso::setScale and is refused by Tensor
+      g.cons.push_back({EConsElem::PARAM, 0, 0, 0, EConsType::LOWER, 0.07});
+      g.cons.push_back({EConsElem::PARAM, 0, 0, 0, EConsType::UPPER, 0.09});
+      g.consClass = "items";
+      break;
+    case 8:
+      name = "D8-constant-sill-after-reduction";
+      setDirs(g, 1, 0.); t = stdTruth(1, false, true); g.types = {ECov::CUBIC, ECov::LINEAR}; g.constSill = 1.; g.consClass = "constsill";
+      g.maxiter = CONSTSILL_MAXITER; g.tolsigma = 60.;
+      break;
+    case 9:
+      name = "D9-lockIso2d-3D";
+      g.ndim = 3; setDirs(g, 4, 0.); g.types = {ECov::SPHERICAL}; g.lockIso2d = true; g.noreduce = true;
+      break;
+    case 10: name = "D11-sphere-only-structure"; g.types = {ECov::GEOMETRIC}; g.maxiter = 30; break;
+    case 11:
+      name = "D14-ModelOptimSillsVario-empty-lag";
+      g.types = {ECov::NUGGET, ECov::SPHERICAL}; sillApi = 1; sillConst = 0; g.patho = P_EMPTY;
+      break;
+    case 12:
+      name = "D15-model_fitting_sills";
+      g.types = {ECov::NUGGET, ECov::SPHERICAL}; sillApi = 0; sillConst = 0; shrink = true;
+      break;
+    case 13:
+      name = "D16-constant-sill-not-expanded";
+      g.types = {ECov::NUGGET, ECov::SPHERICAL}; sillApi = 1; sillConst = 1; sillExpand = 0;
+      break;
+    case 14:
+      name = "D12-matern-large-third-parameter";
+      setDirs(g, 1, 0.); t.ratio = {1., 1.}; t.ang = {0., 0.};
+      g.types = {ECov::MATERN}; g.noreduce = true; g.maxiter = 100;
+      g.cons.push_back({EConsElem::PARAM, 0, 0, 0, EConsType::LOWER, 400.}); // admissible: getParMax() = 1000
+      g.consClass = "items";
+      break;
+    default:
+      name = "control-plain-fit"; g.types = {ECov::NUGGET, ECov::SPHERICAL}; break;
+  }
+  defineDefaultSpace(ESpaceType::RN, g.ndim);
+  c.setSig(std::string("scripted:") + name);
+  c.puts("scenario", name);
+  c.puts("types", typesKey(g));
+  if (c.verbose) fprintf(stderr, "CFG scripted %s types=%s\n", name, typesKey(g).c_str());
+  std::unique_ptr<Vario> vario = makeHandVario(rs, g, &t, 0.02);
+  if (g.patho == P_EMPTY)
+  {
+    // exactly one empty lag, deterministic
+    for (int iv = 0; iv < g.nvar; iv++)
+      for (int jv = 0; jv <= iv; jv++) vario->setSw(1, iv, jv, 3, 0.);
+  }
+  double gmax = 0;
+  for (int id = 0; id < vario->getDirectionNumber(); id++)
+    for (int iv = 0; iv < g.nvar; iv++)
+      for (int ip = 0; ip < vario->getLagNumber(id); ip++)
+      {
+        double v = vario->getGg(id, iv, iv, ip, false, false);
+        if (!FFFF(v) && std::isfinite(v)) gmax = std::max(gmax, std::fabs(v));
+      }
+  if (shrink)
+  {
+    // D15 depends on the size left in the file-static RECINT.dd by the previous fit of the process: make it small
+    Cfg h = g; h.ndim = 1; h.npas = 4; setDirs(h, 1, 0.);
+    defineDefaultSpace(ESpaceType::RN, 1);
+    Truth t1 = stdTruth(1); t1.ratio = {1., 1.}; t1.ang = {0., 0.};
+    std::unique_ptr<Vario> v1 = makeHandVario(rs, h, &t1, 0.02);
+    std::unique_ptr<Model> m1(Model::createFromEnvironment(1, 1));
+    (void)m1->fit(v1.get(), {ECov::SPHERICAL});
+    defineDefaultSpace(ESpaceType::RN, g.ndim);
+  }
+  if (sillApi >= 0)
+    sillsCase(rs, c, g, vario.get(), gmax, sillApi, sillConst, sillExpand);
+  else
+    fitAndCheck(rs, c, g, vario.get(), nullptr, gmax);
+}
+
 // ------------------------------------------------------------------------------------------------
 static void run_case_inner(Rng& r, Ctx& c);
+// CPU watchdog: a case that burns more than CASE_CPU_BUDGET seconds of CPU aborts the worker with an assertion-like
+// message, which the driver turns into the key "crash:assert:C17 case exceeded its CPU budget". The verdict on a hang
+// therefore rests on CPU time; the wall-clock watchdog of the driver (timeout_case) is only a distant fallback.
+static const int CASE_CPU_BUDGET = 600; // the slowest case observed on the unchanged tree costs ~90 CPU seconds
+static void cpuWatchdog(int)
+{
+  static const char msg[] = "c17_fit: Assertion `C17 case exceeded its CPU budget' failed.\n";
+  ssize_t w = write(2, msg, sizeof msg - 1);
+  (void)w;
+  signal(SIGABRT, SIG_DFL);
+  abort();
+}
+static void armWatchdog(int seconds)
+{
+  struct itimerval it;
+  memset(&it, 0, sizeof it);
+  it.it_value.tv_sec = seconds;
+  signal(SIGPROF, seconds > 0 ? cpuWatchdog : SIG_DFL);
+  setitimer(ITIMER_PROF, &it, nullptr);
+}
 static void run_case(Rng& r, Ctx& c)
 {
+  armWatchdog(CASE_CPU_BUDGET);
+  struct Disarm { ~Disarm() { armWatchdog(0); } } disarm;
   // CPU time of the case is written to the sample (development aid: finds slow input classes under machine load)
   ROOTKEY.clear();
   clock_t t0 = clock();
@@ -1442,6 +1633,12 @@ static void run_case(Rng& r, Ctx& c)
 static void run_case_inner(Rng& r, Ctx& c)
 {
   buildCatalog();
+  if (c.icase < NSCRIPT)
+  {
+    Rng rs(20261002ULL, "C17-scripted", (uint64_t)c.icase);
+    scripted((int)c.icase, rs, c);
+    return;
+  }
   Cfg g = drawCfg(r, c.thorough());
   defineDefaultSpace(ESpaceType::RN, g.ndim);
   bool sillsMode = r.coin(0.14);
